@@ -643,8 +643,50 @@ pub fn close(tier: Tier, depth: usize) -> Driver {
         Act::DropWriter,
         Act::Tick,
         Act::Spurious,
+        Act::TransportPendingOnce,
     ];
     Driver { name: "close".into(), cfg, prefix: vec![], alphabet, depth, state_cap: tier.pick(400_000, 6_000_000) }
+}
+
+/// Closing while the local transport refuses a datagram now and then (a full UDP send buffer) and the
+/// peer's window is sometimes too small for the next segment: what was refused has not been sent.
+pub fn close_refused(tier: Tier, depth: usize) -> Driver {
+    let mut d = close(tier, depth);
+    let def = WndSpec::Default;
+    d.name = "close-refused".into();
+    d.alphabet = vec![
+        Act::Write(15),
+        Act::Write(5),
+        Act::TransportPendingOnce,
+        state(AckSpec::All, def, SackSpec::None),
+        state(AckSpec::All, WndSpec::Bytes(3), SackSpec::None),
+        state(AckSpec::Plus(1), WndSpec::Bytes(3), SackSpec::None),
+        Act::Shutdown,
+        Act::DropReader,
+        Act::DropWriter,
+        Act::Tick,
+    ];
+    d
+}
+
+/// Many consecutive timeouts of one segment (a large retransmission limit, a peer that stays silent for
+/// minutes): the back-off doubles up to the 60 s ceiling and stays there.
+pub fn rtx_long_backoff(tier: Tier, depth: usize) -> Driver {
+    let mut d = rtx(tier, 14, false, depth);
+    d.name = "rtx-long-backoff".into();
+    d.cfg.inactivity_ms = 3_600_000;
+    d.alphabet = vec![Act::Write(MSS), Act::Tick, Act::Shutdown];
+    d
+}
+
+/// Retransmission discipline with a transport that refuses a datagram now and then: a refusal is not a
+/// transmission (it must not count towards the retry cap).
+pub fn rtx_refused(tier: Tier, max_retx: usize, depth: usize) -> Driver {
+    let mut d = rtx(tier, max_retx, false, depth);
+    let def = WndSpec::Default;
+    d.name = format!("rtx-refused-retx{max_retx}");
+    d.alphabet = vec![Act::Write(MSS), Act::Write(3 * MSS), Act::TransportPendingOnce, state(AckSpec::Plus(1), def, SackSpec::None), state(AckSpec::All, def, SackSpec::None), Act::Tick];
+    d
 }
 
 /// Hostile datagrams from a given initial state.
@@ -926,6 +968,10 @@ pub fn all_drivers(tier: Tier) -> Vec<Driver> {
         v.push(tx_flow(tier, i, m, 6));
     }
     v.push(close(tier, 6));
+    v.push(close_refused(tier, 6));
+    v.push(rtx_long_backoff(tier, 14));
+    v.push(rtx_refused(tier, 1, 6));
+    v.push(rtx_refused(tier, 2, 6));
     v.push(tx_grow(tier, 5));
     v.push(tx_empty_write(tier, 5));
     v.extend(hostile_all(tier, 2));
